@@ -65,6 +65,10 @@ class Sources:
         self.kv_suffix_others = m.group(1)
         rest = [s for s in sufs if s != self.kv_suffix_others]
         self.kv_suffix_alone = rest[0] if rest else sufs[1]
+        m = re.search(r"reference = match span\.as_str\(\)((?:\.trim\(\))?)\.parse::<u32>\(\)", rp)
+        if not m:
+            raise Unsupported("how find() parses an existing ref value is not recognised")
+        self.kv_value_trim = bool(m.group(1))
         dirs = dict(re.findall(r"const (\w+_DIRECTIVE_TEXT): &str = \"([^\"]*)\"", cp))
         self.ignore_text = dirs.get("IGNORE_DIRECTIVE_TEXT")
         self.nokvp_text = dirs.get("NO_KVP_DIRECTIVE_TEXT")
@@ -238,6 +242,34 @@ class FileModel:
                       * (10 ** (e - 1 - k)) for k in digs])
         return And(alld, val <= U32_MAX), val
 
+    def kv_value_ok(self, s, e):
+        """how find() reads an existing `ref` value: [(cond, value)]"""
+        if not self.src.kv_value_trim:
+            ok, val = self.digits_value_ok(s, e)
+            return [] if ok is False else [(ok, val)]
+        out = []
+        ws = lambda i: self.t.in_set(i, A.RUST_WHITE_SPACE)
+        lead = True
+        for a in range(s, e):
+            if a > s:
+                lead = And(lead, ws(a - 1))
+                if lead is False:
+                    break
+            trail = True
+            for b in range(e, a, -1):
+                if b < e:
+                    trail = And(trail, ws(b))
+                    if trail is False:
+                        break
+                c = And(lead, trail, Not(ws(a)), Not(ws(b - 1)))
+                if c is False:
+                    continue
+                ok, val = self.digits_value_ok(a, b)
+                c = And(c, ok)
+                if c is not False:
+                    out.append((c, val))
+        return out
+
     def extract_reference(self, span):
         """LogRefEntry::extract_reference on the message text: [(cond, value)] + `none` condition."""
         results = []
@@ -293,7 +325,8 @@ def entries_concrete(fm, macros, structured, directives=None):
             entry = None
             for (ks, ke), vspan in kv:
                 if fm.text_equals(ks, ke, fm.src.ref_key) is True and vspan is not None:
-                    ok, val = fm.digits_value_ok(vspan[0], vspan[1])
+                    oks = [val for ok, val in fm.kv_value_ok(vspan[0], vspan[1]) if ok is True]
+                    ok, val = (True, oks[0]) if oks else (False, None)
                     entry = {"pos": fm.byte_offset(vspan[0]), "reference": val if ok is True else None,
                              "kind": "StructuredPreExisting", "charpos": vspan[0]}
                     break
@@ -379,11 +412,11 @@ class SymEntry:
                             continue
                         self.pos[vs] = Or(self.pos.get(vs, False), c)
                         self.is_pre = Or(self.is_pre, c)
-                        ok, value = fm.digits_value_ok(vs, ve)
-                        c2 = And(c, ok)
-                        if c2 is not False:
-                            self.ref_spans.append((c2, (vs, ve), value))
-                            self.has_ref = Or(self.has_ref, c2)
+                        for ok, value in fm.kv_value_ok(vs, ve):
+                            c2 = And(c, ok)
+                            if c2 is not False:
+                                self.ref_spans.append((c2, (vs, ve), value))
+                                self.has_ref = Or(self.has_ref, c2)
                 earlier = Or(earlier, And(is_ref, val.present()))
             new = And(base, Not(earlier))
             if fm.m.truncated is not False:
